@@ -25,6 +25,7 @@ var codePkgs = map[string]string{
 	"types/compkey": "compkey",
 	"x/aol/types":   "aoltypes",
 	"x/aol/keeper":  "aolkeeper",
+	"x/did/types":   "didtypes",
 }
 
 // files that are not translated (CLI wiring, codec registration, generated code)
@@ -67,6 +68,7 @@ type cgen struct {
 	vorder  []string
 	insts   map[string]string // instances of compkey.CompositeKey
 	instBech map[string]bool
+	oneofs   map[string]string
 	iorder  []string
 }
 
@@ -79,6 +81,8 @@ type fctx struct {
 	tmp    int
 	iters  map[types.Object]string // iterator variable -> loop element variable
 	iterOf map[types.Object]string // iterator variable -> Lean expr of materialised entries
+	localInit map[types.Object]ast.Expr // local variables defined exactly once: their initialiser
+	sets      map[types.Object]bool     // local variables of type map[string]struct{} (a set, modelled as a list)
 }
 
 type unsupported struct{ why string }
@@ -142,6 +146,11 @@ func (g *cgen) leanType(t types.Type) string {
 			return "Bytes"
 		}
 		return "(List " + g.leanType(u.Elem()) + ")"
+	case *types.Map:
+		if isStringSet(u) {
+			return "(List Bytes)"
+		}
+		fail("type %s", t)
 	case *types.Pointer:
 		return "(Option " + g.leanType(u.Elem()) + ")"
 	case *types.Named:
@@ -158,6 +167,9 @@ func (g *cgen) leanType(t types.Type) string {
 			return "Bytes"
 		}
 		if ns, ok := g.nsOf(full); ok {
+			if _, isIface := u.Underlying().(*types.Interface); isIface && strings.HasPrefix(name, "is") {
+				return g.oneofType(ns, u)
+			}
 			if _, isStruct := u.Underlying().(*types.Struct); isStruct {
 				ln := ns + "." + name
 				if _, seen := g.structs[ln]; !seen {
@@ -179,14 +191,57 @@ func (g *cgen) leanType(t types.Type) string {
 	return ""
 }
 
+// oneofType: a protobuf `oneof` (interface isT_F implemented by wrapper structs T_X with one field X) becomes an
+// inductive type with one constructor per wrapper and `none` for the unset field.
+func (g *cgen) oneofType(ns string, u *types.Named) string {
+	ln := ns + "." + u.Obj().Name()
+	if _, seen := g.oneofs[ln]; seen {
+		return ln
+	}
+	g.oneofs[ln] = "" // placeholder against recursion
+	owner := strings.TrimPrefix(strings.SplitN(u.Obj().Name(), "_", 2)[0], "is")
+	scope := u.Obj().Pkg().Scope()
+	var b strings.Builder
+	fmt.Fprintf(&b, "inductive %s where\n  | none\n", ln)
+	for _, nm := range scope.Names() {
+		if !strings.HasPrefix(nm, owner+"_") {
+			continue
+		}
+		tn, ok := scope.Lookup(nm).(*types.TypeName)
+		if !ok {
+			continue
+		}
+		st, ok := tn.Type().Underlying().(*types.Struct)
+		if !ok || st.NumFields() != 1 || !types.Implements(types.NewPointer(tn.Type()), u.Underlying().(*types.Interface)) {
+			continue
+		}
+		fmt.Fprintf(&b, "  | %s (v : %s)\n", st.Field(0).Name(), g.leanType(st.Field(0).Type()))
+	}
+	b.WriteString("  deriving Repr, DecidableEq\ninstance : Inhabited " + ln + " := ⟨.none⟩\n")
+	g.oneofs[ln] = b.String()
+	g.sorder = append(g.sorder, "oneof:"+ln)
+	return ln
+}
+
+// leanField: a Go field name as a Lean field name (`Type`, … are keywords)
+func leanField(n string) string {
+	if leanReserved[n] {
+		return "«" + n + "»"
+	}
+	return n
+}
+
 func (g *cgen) structDecl(ln string) string {
+	if strings.HasPrefix(ln, "oneof:") {
+		return g.oneofs[strings.TrimPrefix(ln, "oneof:")]
+	}
 	n := g.structs[ln]
 	st := n.Underlying().(*types.Struct)
 	var b strings.Builder
 	fmt.Fprintf(&b, "structure %s where\n", ln)
 	for i := 0; i < st.NumFields(); i++ {
 		f := st.Field(i)
-		fmt.Fprintf(&b, "  %s : %s := default\n", f.Name(), g.leanType(f.Type()))
+		fmt.Fprintf(&b, "  %s : %s := default\n", leanField(f.Name()), g.leanType(f.Type()))
 	}
 	if st.NumFields() == 0 {
 		b.WriteString("  mk ::\n")
@@ -214,7 +269,7 @@ func reTree(pattern string) string {
 	if err != nil {
 		return fmt.Sprintf("(Go.Re.unsupported %s)", leanStr(err.Error()))
 	}
-	return reNode(re.Simplify())
+	return reNode(re)
 }
 
 func reRanges(rs []rune) (string, bool) {
@@ -393,7 +448,7 @@ func (c *fctx) expr(e *emitter, ind int, x ast.Expr) string {
 }
 
 func (c *fctx) lift() string {
-	return "id"
+	return ""
 }
 
 func (c *fctx) asInt(e *emitter, ind int, x ast.Expr) string {
@@ -533,9 +588,37 @@ func (c *fctx) composite(e *emitter, ind int, v *ast.CompositeLit) string {
 		for i, el := range v.Elts {
 			kv, ok := el.(*ast.KeyValueExpr)
 			if ok {
-				parts = append(parts, kv.Key.(*ast.Ident).Name+" := "+c.expr(e, ind, kv.Value))
+				// a oneof field set to `&Wrapper{F: x}` is the constructor `.F x`
+				if ue, ok := kv.Value.(*ast.UnaryExpr); ok && ue.Op == token.AND {
+					if wl, ok := ue.X.(*ast.CompositeLit); ok && len(wl.Elts) == 1 {
+						if wn, ok := c.info.TypeOf(wl).(*types.Named); ok && strings.Contains(wn.Obj().Name(), "_") {
+							if ft := c.info.TypeOf(kv.Value); ft != nil {
+								var fieldT types.Type
+								for j := 0; j < u.NumFields(); j++ {
+									if u.Field(j).Name() == kv.Key.(*ast.Ident).Name {
+										fieldT = u.Field(j).Type()
+									}
+								}
+								if fn, ok := fieldT.(*types.Named); ok {
+									if _, isIface := fn.Underlying().(*types.Interface); isIface {
+										c.g.leanType(fn)
+										inner := wl.Elts[0]
+										fname := wn.Underlying().(*types.Struct).Field(0).Name()
+										if ikv, ok := inner.(*ast.KeyValueExpr); ok {
+											fname = ikv.Key.(*ast.Ident).Name
+											inner = ikv.Value
+										}
+										parts = append(parts, leanField(kv.Key.(*ast.Ident).Name)+" := (."+fname+" "+c.expr(e, ind, inner)+")")
+										continue
+									}
+								}
+							}
+						}
+					}
+				}
+				parts = append(parts, leanField(kv.Key.(*ast.Ident).Name)+" := "+c.expr(e, ind, kv.Value))
 			} else {
-				parts = append(parts, u.Field(i).Name()+" := "+c.expr(e, ind, el))
+				parts = append(parts, leanField(u.Field(i).Name())+" := "+c.expr(e, ind, el))
 			}
 		}
 		lt := c.g.leanType(t)
@@ -579,9 +662,19 @@ func (c *fctx) selector(e *emitter, ind int, v *ast.SelectorExpr) string {
 	if _, isPtr := bt.Underlying().(*types.Pointer); isPtr {
 		t := c.fresh("d")
 		e.add(ind, fmt.Sprintf("let %s ← %s (Go.deref %s %s)", t, c.lift(), leanStr(exprStr(c.f.pkg.Fset, v.X)), base))
-		return t + "." + v.Sel.Name
+		return t + "." + leanField(v.Sel.Name)
 	}
-	return base + "." + v.Sel.Name
+	return base + "." + leanField(v.Sel.Name)
+}
+
+// map[string]struct{} is used as a set: modelled as the list of its members
+func isStringSet(t types.Type) bool {
+	m, ok := t.Underlying().(*types.Map)
+	if !ok {
+		return false
+	}
+	st, ok := m.Elem().Underlying().(*types.Struct)
+	return ok && st.NumFields() == 0 && isStringish(m.Key())
 }
 
 func isU64(t types.Type) bool {
@@ -635,7 +728,8 @@ func (c *fctx) binary(e *emitter, ind int, v *ast.BinaryExpr) string {
 			_, isSlice := ot.Underlying().(*types.Slice)
 			var s string
 			if isSlice {
-				fail("comparison of a slice with nil")
+				// a slice decoded from protobuf (or never assigned) is nil exactly when it is empty
+				s = "(" + other + ").isEmpty"
 			} else {
 				s = "(" + other + ").isNone"
 			}
@@ -679,6 +773,165 @@ func (c *fctx) binary(e *emitter, ind int, v *ast.BinaryExpr) string {
 	}
 	fail("binary operator %s", v.Op)
 	return ""
+}
+
+// constString evaluates an expression to a compile-time string where Go's constant folding does not: fmt.Sprintf
+// over such strings with %s / %v verbs, and calls of parameterless functions of the translated packages whose body is
+// a single `return <such an expression>`.
+func (c *fctx) constString(x ast.Expr, depth int) (string, bool) {
+	if depth > 6 {
+		return "", false
+	}
+	info := c.info
+	if tv, ok := info.Types[x]; ok && tv.Value != nil && tv.Value.Kind() == constant.String {
+		return constant.StringVal(tv.Value), true
+	}
+	switch v := x.(type) {
+	case *ast.ParenExpr:
+		return c.constString(v.X, depth+1)
+	case *ast.Ident:
+		// a local variable assigned exactly once from such an expression
+		if init, ok := c.localInit[info.ObjectOf(v)]; ok {
+			return c.constString(init, depth+1)
+		}
+	case *ast.CallExpr:
+		name := calleeName(v.Fun)
+		if name == "fmt.Sprintf" && len(v.Args) >= 1 {
+			f, ok := c.constString(v.Args[0], depth+1)
+			if !ok {
+				return "", false
+			}
+			var out strings.Builder
+			ai := 1
+			for i := 0; i < len(f); i++ {
+				if f[i] != '%' {
+					out.WriteByte(f[i])
+					continue
+				}
+				if i+1 >= len(f) {
+					return "", false
+				}
+				i++
+				switch f[i] {
+				case '%':
+					out.WriteByte('%')
+				case 's', 'v':
+					if ai >= len(v.Args) {
+						return "", false
+					}
+					a, ok := c.constString(v.Args[ai], depth+1)
+					if !ok {
+						return "", false
+					}
+					out.WriteString(a)
+					ai++
+				default:
+					return "", false
+				}
+			}
+			return out.String(), true
+		}
+		if fn := c.calleeFunc(v); fn != nil && len(v.Args) == 0 {
+			if cf, ok := c.g.fns[fn]; ok && cf.recv == nil && len(cf.decl.Body.List) > 0 {
+				if rs, ok := cf.decl.Body.List[len(cf.decl.Body.List)-1].(*ast.ReturnStmt); ok && len(rs.Results) == 1 {
+					sub := &fctx{g: c.g, f: cf, info: cf.pkg.TypesInfo, localInit: map[types.Object]ast.Expr{}}
+					return sub.constString(rs.Results[0], depth+1)
+				}
+			}
+		}
+	}
+	return "", false
+}
+
+// sprintfConcat: fmt.Sprintf whose verbs are all %s / %v applied to string-typed arguments is a concatenation.
+func (c *fctx) sprintfConcat(e *emitter, ind int, call *ast.CallExpr) (string, bool) {
+	tv := c.info.Types[call.Args[0]]
+	if tv.Value == nil {
+		return "", false
+	}
+	f := constant.StringVal(tv.Value)
+	var parts []string
+	lit := ""
+	ai := 1
+	flush := func() {
+		if lit != "" {
+			parts = append(parts, leanBytesLit(lit))
+			lit = ""
+		}
+	}
+	for i := 0; i < len(f); i++ {
+		if f[i] != '%' {
+			lit += string(f[i])
+			continue
+		}
+		if i+1 >= len(f) {
+			return "", false
+		}
+		i++
+		switch f[i] {
+		case '%':
+			lit += "%"
+		case 's', 'v':
+			if ai >= len(call.Args) || !isStringish(c.info.TypeOf(call.Args[ai])) {
+				return "", false
+			}
+			flush()
+			parts = append(parts, c.expr(e, ind, call.Args[ai]))
+			ai++
+		default:
+			return "", false
+		}
+	}
+	flush()
+	if len(parts) == 0 {
+		return "([] : Bytes)", true
+	}
+	return "(" + strings.Join(parts, " ++ ") + ")", true
+}
+
+// oneofGetter: `m.GetF()` of a protobuf message with a oneof field — the generated getter, written out.
+func (c *fctx) oneofGetter(e *emitter, ind int, call *ast.CallExpr, fn *types.Func) (string, bool) {
+	sel, ok := call.Fun.(*ast.SelectorExpr)
+	if !ok || !strings.HasPrefix(fn.Name(), "Get") || len(call.Args) != 0 {
+		return "", false
+	}
+	sig := fn.Type().(*types.Signature)
+	if sig.Recv() == nil {
+		return "", false
+	}
+	n := namedOf(sig.Recv().Type())
+	if n == nil {
+		return "", false
+	}
+	if !strings.HasSuffix(c.f.pkg.Fset.Position(fn.Pos()).Filename, ".pb.go") {
+		return "", false
+	}
+	st, ok := n.Underlying().(*types.Struct)
+	if !ok {
+		return "", false
+	}
+	field := strings.TrimPrefix(fn.Name(), "Get")
+	wrapper, _ := n.Obj().Pkg().Scope().Lookup(n.Obj().Name() + "_" + field).(*types.TypeName)
+	if wrapper == nil {
+		return "", false
+	}
+	for i := 0; i < st.NumFields(); i++ {
+		ft, ok := st.Field(i).Type().(*types.Named)
+		if !ok {
+			continue
+		}
+		if _, isIface := ft.Underlying().(*types.Interface); !isIface {
+			continue
+		}
+		recv := c.expr(e, ind, sel.X)
+		if _, isPtr := c.info.TypeOf(sel.X).Underlying().(*types.Pointer); isPtr {
+			// the generated getters are nil-safe: a nil receiver yields the zero value
+			return fmt.Sprintf("(match %s with | some m_ => (match m_.%s with | .%s v_ => v_ | _ => default) | none => default)", recv, st.Field(i).Name(), field), true
+		}
+		c.g.leanType(ft)
+		return fmt.Sprintf("(match %s.%s with | .%s v_ => v_ | _ => default)", recv, st.Field(i).Name(), field), true
+	}
+	return "", false
 }
 
 // callee resolution ------------------------------------------------------------------------------------------
@@ -760,6 +1013,35 @@ func (c *fctx) call(e *emitter, ind int, call *ast.CallExpr, want int) []string 
 		}
 	}
 	sel, _ := call.Fun.(*ast.SelectorExpr)
+	if fn != nil {
+		if r, ok := c.oneofGetter(e, ind, call, fn); ok {
+			return []string{r}
+		}
+	}
+	// set membership / insertion on a local map[string]struct{}
+	switch full {
+	case "regexp.MatchString":
+		pat, ok := c.constString(call.Args[0], 0)
+		if !ok {
+			fail("regexp.MatchString with a pattern that is not a compile-time string")
+		}
+		r := c.bind(e, ind, c.lift()+" (Go.reMatch "+reTree(pat)+" "+arg(1)+")", 1)
+		return []string{r[0], "(none : Go.Err)"}[:max1(want, 1)]
+	case "strings.HasPrefix":
+		return []string{"(List.isPrefixOf " + arg(1) + " " + arg(0) + ")"}
+	case "github.com/cosmos/cosmos-sdk/types.AccAddress.Empty":
+		return []string{"(" + c.expr(e, ind, sel.X) + ").isEmpty"}
+	case "log.Printf", "log.Println":
+		return nil
+	case "fmt.Sprintf":
+		if str, ok := c.constString(call, 0); ok {
+			return []string{leanBytesLit(str)}
+		}
+		if str, ok := c.sprintfConcat(e, ind, call); ok {
+			return []string{str}
+		}
+		fail("fmt.Sprintf with verbs other than %%s/%%v on strings")
+	}
 	switch full {
 	case "github.com/cosmos/cosmos-sdk/types.AccAddressFromBech32":
 		c.f.usesBech = true
@@ -913,6 +1195,13 @@ func (c *fctx) call(e *emitter, ind int, call *ast.CallExpr, want int) []string 
 // methods of compkey.CompositeKey that write through their (pointer) receiver
 var ifaceMutates = map[string]bool{"FromByteSlices": true, "FromStrings": true}
 
+func max1(a, b int) int {
+	if a > b {
+		return a
+	}
+	return b
+}
+
 func (c *fctx) conversion(e *emitter, ind int, to types.Type, x ast.Expr) string {
 	from := c.info.TypeOf(x)
 	s := c.expr(e, ind, x)
@@ -950,6 +1239,9 @@ func (c *fctx) builtin(e *emitter, ind int, name string, call *ast.CallExpr, wan
 		return []string{"(" + c.expr(e, ind, call.Args[0]) + " ++ [" + strings.Join(parts, ", ") + "])"}
 	case "make":
 		t := c.info.TypeOf(call)
+		if isStringSet(t) {
+			return []string{"([] : List Bytes)"}
+		}
 		if _, ok := t.Underlying().(*types.Slice); !ok {
 			fail("make of %s", t)
 		}
@@ -1207,9 +1499,9 @@ func (c *fctx) assignTo(e *emitter, ind int, lhs ast.Expr, rhs string, define bo
 		if _, isPtr := c.info.TypeOf(l.X).Underlying().(*types.Pointer); isPtr {
 			t := c.fresh("d")
 			e.add(ind, fmt.Sprintf("let %s ← %s (Go.deref %s %s)", t, c.lift(), leanStr(id.Name), n))
-			e.add(ind, fmt.Sprintf("%s := some { %s with %s := %s }", n, t, l.Sel.Name, rhs))
+			e.add(ind, fmt.Sprintf("%s := some { %s with %s := %s }", n, t, leanField(l.Sel.Name), rhs))
 		} else {
-			e.add(ind, fmt.Sprintf("%s := { %s with %s := %s }", n, n, l.Sel.Name, rhs))
+			e.add(ind, fmt.Sprintf("%s := { %s with %s := %s }", n, n, leanField(l.Sel.Name), rhs))
 		}
 	case *ast.IndexExpr:
 		id, ok := l.X.(*ast.Ident)
@@ -1281,6 +1573,8 @@ func (c *fctx) stmt(e *emitter, ind int, s ast.Stmt) {
 		c.rangeStmt(e, ind, v)
 	case *ast.BlockStmt:
 		c.block(e, ind, v.List)
+	case *ast.SwitchStmt:
+		c.switchStmt(e, ind, v)
 	case *ast.DeferStmt:
 		if strings.HasSuffix(calleeName(v.Call.Fun), ".Close") {
 			return // iterator.Close(): no observable effect
@@ -1318,6 +1612,24 @@ func (c *fctx) assign(e *emitter, ind int, v *ast.AssignStmt) {
 		return
 	default:
 		fail("assignment operator %s", v.Tok)
+	}
+	if len(v.Rhs) == 1 && len(v.Lhs) == 2 {
+		if ix, ok := v.Rhs[0].(*ast.IndexExpr); ok && isStringSet(c.info.TypeOf(ix.X)) {
+			// _, present := set[key]
+			c.assignTo(e, ind, v.Lhs[1], "(List.contains "+c.expr(e, ind, ix.X)+" "+c.expr(e, ind, ix.Index)+")", define)
+			return
+		}
+	}
+	if len(v.Rhs) == 1 && len(v.Lhs) == 1 {
+		if ix, ok := v.Lhs[0].(*ast.IndexExpr); ok && isStringSet(c.info.TypeOf(ix.X)) {
+			id, ok := ix.X.(*ast.Ident)
+			if !ok {
+				fail("set that is not a local variable")
+			}
+			n := c.nameOf(c.info.ObjectOf(id))
+			e.add(ind, fmt.Sprintf("%s := %s :: %s", n, c.expr(e, ind, ix.Index), n))
+			return
+		}
 	}
 	if len(v.Rhs) == 1 && len(v.Lhs) > 1 {
 		call, ok := v.Rhs[0].(*ast.CallExpr)
@@ -1400,6 +1712,49 @@ func (c *fctx) ifStmt(e *emitter, ind int, v *ast.IfStmt) {
 		default:
 			c.block(e, ind+1, []ast.Stmt{el})
 		}
+	}
+}
+
+// switchStmt: an expression switch without fallthrough is a chain of conditionals on the tag evaluated once.
+func (c *fctx) switchStmt(e *emitter, ind int, v *ast.SwitchStmt) {
+	if v.Init != nil {
+		c.stmt(e, ind, v.Init)
+	}
+	if v.Tag == nil {
+		fail("switch without a tag")
+	}
+	tag := c.fresh("tag")
+	e.add(ind, fmt.Sprintf("let %s := %s", tag, c.expr(e, ind, v.Tag)))
+	var clauses []*ast.CaseClause
+	var def *ast.CaseClause
+	for _, st := range v.Body.List {
+		cc := st.(*ast.CaseClause)
+		for _, b := range cc.Body {
+			if br, ok := b.(*ast.BranchStmt); ok && br.Tok == token.FALLTHROUGH {
+				fail("fallthrough")
+			}
+		}
+		if cc.List == nil {
+			def = cc
+		} else {
+			clauses = append(clauses, cc)
+		}
+	}
+	depth := 0
+	for _, cc := range clauses {
+		var conds []string
+		for _, x := range cc.List {
+			conds = append(conds, "decide ("+tag+" = "+c.expr(e, ind+depth, x)+")")
+		}
+		e.add(ind+depth, "if "+strings.Join(conds, " || ")+" then")
+		c.block(e, ind+depth+1, cc.Body)
+		e.add(ind+depth, "else")
+		depth++
+	}
+	if def != nil {
+		c.block(e, ind+depth, def.Body)
+	} else {
+		e.add(ind+depth, "pure ()")
 	}
 }
 
@@ -1633,7 +1988,8 @@ func (g *cgen) translate(cf *cfn) {
 			panic(r)
 		}
 	}()
-	c := &fctx{g: g, f: cf, info: cf.pkg.TypesInfo, names: map[types.Object]string{}, used: map[string]bool{}, iters: map[types.Object]string{}}
+	c := &fctx{g: g, f: cf, info: cf.pkg.TypesInfo, names: map[types.Object]string{}, used: map[string]bool{}, iters: map[types.Object]string{}, localInit: map[types.Object]ast.Expr{}, sets: map[types.Object]bool{}}
+	c.collectLocalInits()
 	sig := cf.obj.Type().(*types.Signature)
 	var params []string
 	mutParams := []string{}
@@ -1723,6 +2079,31 @@ func (g *cgen) translate(cf *cfn) {
 	cf.body = append([]string{hdr}, e.lines...)
 }
 
+// collectLocalInits records the initialiser of every local variable that is defined by `:=` and never assigned again
+// (used to fold `pattern := fmt.Sprintf(…)` into a constant).
+func (c *fctx) collectLocalInits() {
+	count := map[types.Object]int{}
+	ast.Inspect(c.f.decl.Body, func(n ast.Node) bool {
+		if as, ok := n.(*ast.AssignStmt); ok {
+			for i, l := range as.Lhs {
+				if id, ok := l.(*ast.Ident); ok {
+					o := c.info.ObjectOf(id)
+					count[o]++
+					if as.Tok == token.DEFINE && len(as.Lhs) == len(as.Rhs) {
+						c.localInit[o] = as.Rhs[i]
+					}
+				}
+			}
+		}
+		return true
+	})
+	for o, n := range count {
+		if n != 1 {
+			delete(c.localInit, o)
+		}
+	}
+}
+
 func (c *fctx) assignedParams() []string {
 	var out []string
 	seen := map[types.Object]bool{}
@@ -1785,7 +2166,7 @@ func (c *fctx) assignedParams() []string {
 }
 
 func emitCode(pkgs []*packages.Package, outDir string) {
-	g := &cgen{pkgs: map[string]*packages.Package{}, fns: map[*types.Func]*cfn{}, structs: map[string]*types.Named{}, vars: map[string]string{}, insts: map[string]string{}, instBech: map[string]bool{}}
+	g := &cgen{pkgs: map[string]*packages.Package{}, fns: map[*types.Func]*cfn{}, structs: map[string]*types.Named{}, vars: map[string]string{}, insts: map[string]string{}, instBech: map[string]bool{}, oneofs: map[string]string{}}
 	for _, p := range pkgs {
 		g.pkgs[p.PkgPath] = p
 	}
